@@ -10,7 +10,8 @@ namespace TDV.MP
 structure GS (c : Cfg) (s : State) : Prop where
   ny : s.numYielded = (yields s.obs).length
   st0 : c.interval = 0 → s.snap.step = 0
-  st : c.interval ≠ 0 → c.interval ∣ s.snap.step ∧ s.snap.step ≤ s.numYielded ∧ s.numYielded < s.snap.step + c.interval
+  st : c.interval ≠ 0 → c.iterable = true →
+    c.interval ∣ s.snap.step ∧ s.snap.step ≤ s.numYielded ∧ s.numYielded < s.snap.step + c.interval
 
 theorem GS_of_eq (c : Cfg) (s s' : State) (t : List Obs) (h : GS c s) (e1 : s'.numYielded = s.numYielded)
     (e2 : s'.snap = s.snap) (e3 : s'.obs = s.obs ++ t) (ht : yields t = []) : GS c s' := by
@@ -37,30 +38,65 @@ theorem takeSnapshot_cases (c : Cfg) (s : State) (hio : c.inOrder = true) :
     · exact Or.inr ⟨_, _, rfl⟩
     · exact Or.inl (by simp [hio])
 
+/-- Yielding, every configuration: the observation and `numYielded` evolve together. -/
+theorem yieldItem_ny (c : Cfg) (s : State) (r : Res) (b : Nat) :
+    ((yieldItem c s r b).2 = .item b ∧ (yieldItem c s r b).1.numYielded = s.numYielded + 1 ∨
+     (yieldItem c s r b).2 = .assertion ∧ (yieldItem c s r b).1.numYielded = s.numYielded) ∧
+    (c.interval = 0 → (yieldItem c s r b).1.snap = s.snap) := by
+  unfold yieldItem
+  dsimp only
+  have hd : (snapshotDue c { s with lastW := r.w, wsnaps := applyDelta s.wsnaps r.w r.st }).1.numYielded =
+      s.numYielded := by
+    unfold snapshotDue; split <;> rfl
+  generalize snapshotDue c { s with lastW := r.w, wsnaps := applyDelta s.wsnaps r.w r.st } = d at hd
+  split
+  · exact ⟨Or.inl ⟨rfl, rfl⟩, fun _ => rfl⟩
+  · rename_i h0
+    refine ⟨?_, fun h => absurd h h0⟩
+    split
+    · split
+      · rename_i s' h
+        unfold takeSnapshot at h
+        left
+        refine ⟨rfl, ?_⟩
+        split at h
+        · split at h
+          · cases h; simp only; rw [hd]
+          · cases h
+        · split at h
+          · cases h; simp only; rw [hd]
+          · split at h
+            · cases h; simp only; rw [hd]
+            · cases h
+      · exact Or.inr ⟨rfl, hd⟩
+    · exact Or.inl ⟨rfl, by simp only; rw [hd]⟩
+
 /-- Yielding: `(numYielded, snap.step, observation)` evolve together. -/
 theorem yieldItem_gs (c : Cfg) (s : State) (r : Res) (b : Nat) (hio : c.inOrder = true)
     (h0 : c.interval = 0 → s.snap.step = 0)
-    (h1 : c.interval ≠ 0 → c.interval ∣ s.snap.step ∧ s.snap.step ≤ s.numYielded ∧ s.numYielded < s.snap.step + c.interval) :
+    (h1 : c.interval ≠ 0 → c.iterable = true →
+      c.interval ∣ s.snap.step ∧ s.snap.step ≤ s.numYielded ∧ s.numYielded < s.snap.step + c.interval) :
     ((yieldItem c s r b).2 = .item b ∧ (yieldItem c s r b).1.numYielded = s.numYielded + 1 ∨
      (yieldItem c s r b).2 = .assertion ∧ (yieldItem c s r b).1.numYielded = s.numYielded) ∧
     (c.interval = 0 → (yieldItem c s r b).1.snap.step = 0) ∧
-    (c.interval ≠ 0 → c.interval ∣ (yieldItem c s r b).1.snap.step ∧
+    (c.interval ≠ 0 → c.iterable = true → c.interval ∣ (yieldItem c s r b).1.snap.step ∧
       (yieldItem c s r b).1.snap.step ≤ (yieldItem c s r b).1.numYielded ∧
       (yieldItem c s r b).1.numYielded < (yieldItem c s r b).1.snap.step + c.interval) := by
-  unfold yieldItem
+  refine ⟨(yieldItem_ny c s r b).1, fun hz => by rw [(yieldItem_ny c s r b).2 hz]; exact h0 hz, fun hI hit => ?_⟩
+  have h1 := h1 hI hit
+  rw [yieldItem_iter c s r b hit]
+  unfold yieldItemOld
   dsimp only
   by_cases hdue : c.interval ≠ 0 ∧ (s.numYielded + 1) % c.interval = 0
   · rw [if_pos hdue]
     rcases takeSnapshot_cases c { s with lastW := r.w, wsnaps := applyDelta s.wsnaps r.w r.st } hio with ht | ⟨e, rest, ht⟩
     · rw [ht]
-      exact ⟨Or.inr ⟨rfl, rfl⟩, h0, h1⟩
+      exact h1
     · rw [ht]
-      refine ⟨Or.inl ⟨rfl, rfl⟩, fun hz => absurd hz hdue.1, fun _ => ?_⟩
       have := Nat.pos_of_ne_zero hdue.1
       exact ⟨Nat.dvd_of_mod_eq_zero hdue.2, Nat.le_refl _, by simp only; omega⟩
   · rw [if_neg hdue]
-    refine ⟨Or.inl ⟨rfl, rfl⟩, h0, fun hI => ?_⟩
-    obtain ⟨d1, d2, d3⟩ := h1 hI
+    obtain ⟨d1, d2, d3⟩ := h1
     refine ⟨d1, by simp only; omega, ?_⟩
     exact step_keep' _ _ _ d1 d3 (fun hh => hdue ⟨hI, hh⟩)
 
